@@ -426,4 +426,6 @@ def main(argv):
             raise
         ctx.tooling_failure("harness", "".join(traceback.format_exception(type(e), e, e.__traceback__)))
     signal.alarm(0)
+    if a.replay:
+        return 1 if ctx.violations else 0      # a replay never rewrites the evidence file
     return ctx.finish()
